@@ -80,7 +80,8 @@ where
     // for now, write this as a type alias; we may want to change this to a newtype
     // in the future
     if let Some(comment) = comment {
-        for line in comment.split('\n') {
+        // a carriage return may not appear in a doc comment
+        for line in comment.replace('\r', "").split('\n') {
             writeln!(writer, "/// {line}")?;
         }
     }
@@ -152,7 +153,8 @@ where
     let rust_name = xml_name_to_rust_name(xml_name);
 
     if let Some(comment) = comment {
-        for line in comment.split('\n') {
+        // a carriage return may not appear in a doc comment
+        for line in comment.replace('\r', "").split('\n') {
             writeln!(writer, "/// {line}")?;
         }
     }
